@@ -1,6 +1,8 @@
 package checks
 
 import (
+	"os"
+	"sort"
 	"fmt"
 	"strings"
 	"time"
@@ -62,7 +64,14 @@ func lockBody(prog string) func(e *schedmc.Env) {
 				})
 				if r.Err == "" {
 					tok = r.Token
-					last = e.H.Calls[len(e.H.Calls)-1]
+					// this thread's own Lock call (another thread's call may have been recorded
+					// between its invocation and its response)
+					for i := len(e.H.Calls) - 1; i >= 0; i-- {
+						if c := e.H.Calls[i]; c.Thread == e.Tid && c.Op == "lock" {
+							last = c
+							break
+						}
+					}
 				} else {
 					tok, last = nil, nil
 				}
@@ -87,7 +96,7 @@ func lockBody(prog string) func(e *schedmc.Env) {
 const msNS = int64(time.Millisecond)
 
 // judgeLocks evaluates the schedule-independent lock predicates on a recorded history.
-func judgeLocks(h *schedmc.Hist, sig string) (string, string) {
+func judgeLocks(h *schedmc.Hist, sig string, x *sched.Exec) (string, string) {
 	type hold struct {
 		c          *schedmc.Call
 		from, till int64 // certain-hold interval [latest acquisition, earliest release)
@@ -116,9 +125,28 @@ func judgeLocks(h *schedmc.Hist, sig string) (string, string) {
 			holds = append(holds, hold{c, c.RetNS, till})
 		}
 	}
+	// A timed lock expires no earlier than its timeout after it was TAKEN. It was taken somewhere
+	// between the invocation and the response of the Lock call, and not while an earlier holder
+	// still held the lock for certain: a Lock that had to wait was taken after that holder's
+	// release. (Holds are processed in the order of their acquisition, so that the earlier ones
+	// are final.)
+	sort.SliceStable(holds, func(i, j int) bool { return holds[i].from < holds[j].from })
 	// releases and leases shorten / extend the certain-hold interval of the lock they refer to
 	for i := range holds {
 		hd := &holds[i]
+		if to := hd.c.In.(lockIn).timeout; to != 0 {
+			taken := hd.c.InvNS
+			for j := 0; j < i; j++ {
+				e := holds[j].till
+				if e > hd.from {
+					e = hd.from
+				}
+				if holds[j].from < holds[j].till && e > taken {
+					taken = e
+				}
+			}
+			hd.till = taken + int64(to) - msNS
+		}
 		for _, c := range h.Calls {
 			in := c.In.(lockIn)
 			if in.lockCall != hd.c || c.Ret == 0 {
@@ -151,8 +179,19 @@ func judgeLocks(h *schedmc.Hist, sig string) (string, string) {
 	// a Lock may give up only if the key could have been held at every poll: a stretch of 22ms
 	// (two poll periods) inside its waiting time during which nobody can possibly hold the lock
 	// means "acquirable shortly after release/timeout" is broken.
+	// (This clause is about a waiter that polls when it can: executions in which the clock was
+	// advanced although a thread could have run - a thread held up for milliseconds between two of
+	// its own steps - say nothing about it.)
+	starved := false
+	if x != nil {
+		for _, p := range x.Points {
+			if len(p.Enabled) > 1 && p.Enabled[p.Chosen] == sched.TimeID {
+				starved = true
+			}
+		}
+	}
 	for _, f := range h.Calls {
-		if f.Op != "lock" || f.Ret == 0 || f.Res.Err != "locknotacquired" {
+		if starved || f.Op != "lock" || f.Ret == 0 || f.Res.Err != "locknotacquired" {
 			continue
 		}
 		type iv struct{ a, b int64 }
@@ -202,6 +241,21 @@ func judgeLocks(h *schedmc.Hist, sig string) (string, string) {
 			}
 		}
 	}
+	if os.Getenv("DBG_HOLDS") != "" {
+		for _, hd := range holds {
+			fmt.Printf("   hold %s from=%dus till=%dus\n", hd.c, hd.from/1000%1e9, hd.till/1000%1e9)
+		}
+	}
+	// a Lock call that ran entirely inside another holder's certain-hold interval and returned a
+	// token took the lock while it was held (this also covers a holder that unlocks at once)
+	for i := range holds {
+		for j := range holds {
+			a, b := holds[i], holds[j]
+			if i != j && a.from < a.till && b.c.InvNS >= a.from && b.c.RetNS <= a.till {
+				return "acquired-while-held/" + sig, fmt.Sprintf("%s ran during [%d,%d)us and returned a token while %s held the lock for certain during [%d,%d)us", b.c, b.c.InvNS/1000%1e9, b.c.RetNS/1000%1e9, a.c, a.from/1000%1e9, a.till/1000%1e9)
+			}
+		}
+	}
 	for i := range holds {
 		for j := i + 1; j < len(holds); j++ {
 			a, b := holds[i], holds[j]
@@ -231,6 +285,10 @@ func c08Programs(tier string) []*schedmc.Program {
 		{"L0/0 E40", "L0/70 U"},
 		{"L50/0 E90 S60 U", "S30 L0/45 U"},
 		{"L30/0", "S5 L0/80 U"},
+		// a timed lock that is acquired only after WAITING for the previous holder: its timeout
+		// counts from the acquisition (waiting longer than the timeout, and shorter)
+		{"L0/0 S40 U S5 L0/20 U", "S2 L30/90"},
+		{"L0/0 S20 U S15 L0/10 U", "S2 L30/90"},
 	}
 	entPairs := [][]string{{"EO", "EO"}, {"EO", "EN"}, {"EN", "EN2"}, {"EN", "CC"}, {"CC", "CC"}, {"RN", "EO"}}
 	type cfg struct{ n, r int }
@@ -269,7 +327,7 @@ func c08Programs(tier string) []*schedmc.Program {
 				}
 				p.Judge = func(cl *simcluster.Cluster, h *schedmc.Hist, x *sched.Exec) (string, string) {
 					sig := fmt.Sprintf("progs=%s/entries=%s", strings.ReplaceAll(strings.Join(ps, "||"), " ", "."), strings.Join(classes(ents), "+"))
-					return judgeLocks(h, sig)
+					return judgeLocks(h, sig, x)
 				}
 				progs = append(progs, p)
 			}
